@@ -32,6 +32,11 @@ def decide(v, prop, gate_ok, ob, corr_items, oracle_failures, extended_search=No
     oracle_failures: list of dict(signature=..., replay=..., text=...).
     is_site_known(case_summary, code) -> signature or None : correspondence mismatch explained by a known finding.
     extended_search() -> list of further oracle failures (same format)."""
+    import probes
+    probe_fails, n_probes = probes.run(prop)
+    v.cov["audit_probes_run"] = n_probes
+    v.cov["audit_probes_fired"] = sorted(f["signature"] for f in probe_fails)
+    oracle_failures = list(oracle_failures) + probe_fails
     unknown = []
     for f in oracle_failures:
         kf = C.match_known(prop, f["signature"])
